@@ -349,6 +349,18 @@ def abs_levy_model(ctx, name, sigma=0.0, a=0.0, representation=None, **measure_k
             def levy_exponent_pure_jump(self, x):
                 raise Unsupported("abstract model has no closed-form exponent")
 
+            def intensity(self):
+                """the model's own jump arrival rate (total mass of a finite-activity measure): an arbitrary positive number, unrelated to
+                the mass a grid keeps"""
+                from . import values as _V
+
+                c = _V.get_context()
+                if "model_intensity" not in c.symbols:
+                    lam = c.real("model_intensity")
+                    c.assume(lam > 0)
+                    self._lam = lam
+                return self._lam
+
         _CLASSES["lm"] = AbsLevyModel
     nu = AbsMeasure(ctx, name, **measure_kw)
     trip = LevyTriplet(sigma=sigma, nu=nu, a=a, representation=representation or LevyRepresentation.ONEONE)
